@@ -75,8 +75,8 @@ class DataReader(object):
         # Move internal trackers ahead.
         self.i += 1
 
-        # Only handle lines within the data.
-        if not self.EOD:
+        # Only handle lines within the data. (EOD may be line index 0.)
+        if self.EOD is None:
             # Check for the End-Of-Data marker.
             if eod_pattern.match(line):
                 self.EOD = i
@@ -109,7 +109,7 @@ class DataReader(object):
             raise MessageTooBig()
 
         self.add_lines(piece)
-        return not self.EOD
+        return self.EOD is None
 
     def return_all(self):
         assert self.EOD is not None
